@@ -149,6 +149,7 @@ def plan(ctx):
     items += [('gs1-order', i, t) for i in range(8)]
     items += [('steady', i, t) for i in range(16)]
     items += [('opt-order', i, t) for i in range(8)]
+    items += [('twice', i, t) for i in range(16)]
     items += [('one-vs-all', i, t) for i in range(16)]
     if not quick:
         items += [('focus3', i, t) for i in range(len(F))]
@@ -607,6 +608,43 @@ def work(item):
                 n0, t0 = _steady(res, name, events, quick)
                 n += n0
                 nt += t0
+    elif kind == 'twice':
+        # one fresh state per module; a battery of calls (every public one-argument function x seeds, short digit
+        # strings, valid neighbours) is executed twice in that state: the second pass must repeat the first
+        from .. import e2, e1
+        for j, (name, m0) in enumerate(core.modules().items()):
+            if j % 16 != idx:
+                continue
+            inputs = list(dict.fromkeys([v for s_, v in seedmod.seeds(name, 6)] + [s_ for s_, v in seedmod.seeds(name, 3)]))
+            try:
+                inputs += [x for x in e2.valid_set(name, m0, 'quick', nseeds=2, cap=12)[0] if x not in inputs]
+            except Exception:
+                pass
+            short = e1.short_strings('0123456789', 2) + ['A', 'AB', 'A1', '1A', 'X']
+            fns = ['validate', 'is_valid'] + [f for f in ('format', 'compact', 'split', 'info') if hasattr(m0, f)]
+            fns += [f for f in sorted(vars(m0)) if f.startswith(('get_', 'to_', 'calc_', 'guess_')) and inspect.isfunction(getattr(m0, f))
+                    and len([p for p in inspect.signature(getattr(m0, f)).parameters.values()
+                             if p.default is inspect.Parameter.empty]) == 1][:8]
+            battery = [(name, fn, (x,), ()) for fn in fns for x in inputs] + [(name, 'validate', (x,), ()) for x in short]
+            if name == 'stdnum.mac':
+                battery = battery[:60]
+            e4.purge()
+            first = [e4.call(e)[0] for e in battery]
+            second = [e4.call(e)[0] for e in battery]
+            n += len(battery)
+            nt += sum(1 for o in first if o[0] == 'ok')
+            for e, o1, o2 in zip(battery, first, second):
+                if o1 != o2:
+                    # the replayable form: the battery prefix up to and including this call, then the call again
+                    k = battery.index(e)
+                    hist = [('call', b) for b in battery[:k + 1]] + [('call', b) for b in battery[:k + 1]]
+                    res.viol(ID, 'repeat-changes-result', e[0], e[1],
+                             {'kind': 'twice', 'module': name, 'event': _enc_hist([('call', e)])[0]},
+                             'in one process %s.%s(%r) answered %r the first time and %r when the same sequence of calls was repeated' % (e[0], e[1], e[2][0], o1, o2),
+                             'same answer', excinfo=o2[0] + ('/' + str(o2[1]) if o2[0] == 'raise' else ''),
+                             devclass='twice:%s' % ('short' if e[2][0] in short else 'seed'), rank=[len(e[2][0]), k, repr(e)])
+                    break
+        res['samples'].append({'history': 'battery of one-argument calls executed twice in one fresh state'})
     elif kind == 'opt-order':
         # the same function with different options in sequence (caches keyed too coarsely across alphabets / regions / tables)
         from ..tables.options import option_sets
@@ -701,6 +739,11 @@ def replay(case):
         for v in res['violations']:
             v['sig'] = None
         return [dict(v, sig=_resig(v, case)) for v in res['violations']][:1]
+    if case['kind'] == 'twice':
+        names = list(core.modules())
+        j = names.index(case['module'])
+        r2 = work(('twice', j % 16, 'quick'))
+        return [dict(v, sig=None) for v in r2['violations'] if v['case'].get('module') == case['module']][:1]
     events = [_dec_hist([e])[0][1] for e in case['events']]
     if case['kind'] == 'steady':
         r2 = Result()
